@@ -62,11 +62,31 @@ func refToArchive(r txtarref.Archive) *txtar.Archive {
 	return a
 }
 
+// sampleExtras: during the exhaustive enumeration the argument-intact and result-stability checks run on one string in 16
+// (chosen by a hash of the string); everywhere else they always run.
+var sampleExtras atomic.Bool
+
+func extrasFor(b []byte) bool {
+	if !sampleExtras.Load() {
+		return true
+	}
+	h := uint32(2166136261)
+	for _, x := range b {
+		h = (h ^ uint32(x)) * 16777619
+	}
+	return h%16 == 0
+}
+
 // checkParse is the oracle for one input byte string.
 func checkParse(c parseCase) *vt.Fail {
 	x := []byte(c.Input)
+	extras := extrasFor(x)
 	var a *txtar.Archive
-	if f := vt.Guard("parse-panic", func() *vt.Fail { a = txtar.Parse(append([]byte(nil), x...)); return nil }); f != nil {
+	arg, intact := append([]byte(nil), x...), func() bool { return true }
+	if extras {
+		arg, intact = vt.WithSpare(x)
+	}
+	if f := vt.Guard("parse-panic", func() *vt.Fail { a = txtar.Parse(arg); return nil }); f != nil {
 		return f
 	}
 	if a == nil {
@@ -76,6 +96,16 @@ func checkParse(c parseCase) *vt.Fail {
 	var b *txtar.Archive
 	if f := vt.Guard("reparse-panic", func() *vt.Fail { b = txtar.Parse(txtar.Format(a)); return nil }); f != nil {
 		return f
+	}
+	if extras {
+		if f := vt.Stable(func() string { return fmt.Sprintf("Format(Parse(%q))", x) }, txtar.Format(a), func() {
+			txtar.Format(txtar.Parse([]byte("other comment\n-- other.txt --\nother data\n-- second --\nno newline")))
+		}); f != nil {
+			return f
+		}
+	}
+	if !intact() {
+		return vt.Failf("argument-modified", "Parse(%q) followed by Format of the result modified the input or the memory behind it", x)
 	}
 	if d := sameArchive(a, b); d != "" {
 		return vt.Failf("reparse-unstable", "Parse(Format(Parse(x))) differs from Parse(x): %s", d)
@@ -286,6 +316,8 @@ func TestExhaustive(t *testing.T) {
 		maxLen = 11
 	}
 	var nt, viol int64
+	sampleExtras.Store(true)
+	defer sampleExtras.Store(false)
 	total := txtarref.Enum(alphabet, maxLen, vt.Shard(), vt.NShards(), func(w int, s []byte) {
 		if atomic.LoadInt64(&viol) > 5 {
 			return
